@@ -89,8 +89,10 @@ def evaluate(pid, patch, demo, checks, tier, keep=None, needs=""):
     if keep:
         d = os.path.join(VERIF, "seeded", keep)
         os.makedirs(d, exist_ok=True)
-        shutil.copy(patch, os.path.join(d, "patch.diff"))
-        shutil.copy(demo, os.path.join(d, "demo.py"))
+        for src, name in ((patch, "patch.diff"), (demo, "demo.py")):
+            dst = os.path.join(d, name)
+            if os.path.abspath(src) != os.path.abspath(dst):
+                shutil.copy(src, dst)
         meta = {"property": pid, "needs_to_manifest": needs, "valid_seed": res.get("valid_seed"),
                 "suite_with_patch": res.get("suite_with_patch"), "demo_on_original_exit": res.get("demo_on_original"),
                 "demo_with_patch_exit": res.get("demo_with_patch"), "checks_run": res.get("checks"),
